@@ -17,6 +17,7 @@ import (
 	"github.com/Query-farm/vgi-rpc-go/vgirpc"
 	"github.com/apache/arrow-go/v18/arrow"
 	"github.com/apache/arrow-go/v18/arrow/array"
+	"github.com/apache/arrow-go/v18/arrow/ipc"
 	"github.com/apache/arrow-go/v18/arrow/memory"
 )
 
@@ -40,6 +41,7 @@ import (
 //   gate= hook= ok= err= runs= succ= kind= seen= pages= hash= health= same=
 
 func init() {
+	vgirpc.RegisterStateType(&c40Tick{})
 	Register(&Prop{
 		ID: "C40",
 		Rule: "scripted concurrent first and subsequent requests across routes against a real HttpServer whose serve-start hook " +
@@ -69,6 +71,91 @@ type c40Params struct {
 }
 
 type c40Plan struct{ block, ok bool }
+
+// c40Tick is the producer stream state (gob-registered, so continuation tokens can carry it).
+type c40Tick struct{ Seq int64 }
+
+func (p *c40Tick) Produce(_ context.Context, out *vgirpc.OutputCollector, _ *vgirpc.CallContext) error {
+	p.Seq++
+	return out.EmitMap(map[string][]interface{}{"value": {p.Seq}})
+}
+
+var c40TickSchema = arrow.NewSchema([]arrow.Field{{Name: "value", Type: arrow.PrimitiveTypes.Int64}}, nil)
+
+var c40Key = bytes.Repeat([]byte{0x40}, 32)
+
+func c40Register(s *vgirpc.Server) {
+	vgirpc.Producer(s, "p", c40TickSchema, func(context.Context, *vgirpc.CallContext, c40Params) (*vgirpc.StreamResult, error) {
+		return &vgirpc.StreamResult{OutputSchema: c40TickSchema, State: &c40Tick{}}, nil
+	})
+}
+
+// a sibling instance (same registration, same token key, its own process state) that mints
+// continuation tokens: a load-balanced peer or the instance before a restart
+var (
+	c40SiblingOnce sync.Once
+	c40Sibling     *vgirpc.HttpServer
+)
+
+func c40Mint() (state, call []byte) {
+	c40SiblingOnce.Do(func() {
+		s := vgirpc.NewServer()
+		s.SetServiceName("c40")
+		s.SetServerID("c40-server")
+		vgirpc.Unary(s, "m", func(_ context.Context, _ *vgirpc.CallContext, p c40Params) (int64, error) { return p.N, nil })
+		c40Register(s)
+		h, err := vgirpc.NewHttpServerWithKey(s, c40Key)
+		if err != nil {
+			panic(err)
+		}
+		h.SetProducerBatchLimit(1)
+		c40Sibling = h
+	})
+	rec := httptest.NewRecorder()
+	c40Sibling.ServeHTTP(rec, c40InitRequest())
+	return vgirpc.FindStreamTokens(rec.Body.Bytes())
+}
+
+func c40ParamsBody(method string) []byte {
+	mem := memory.NewGoAllocator()
+	schema := arrow.NewSchema([]arrow.Field{{Name: "n", Type: arrow.PrimitiveTypes.Int64}}, nil)
+	bld := array.NewInt64Builder(mem)
+	bld.Append(7)
+	col := bld.NewArray()
+	bld.Release()
+	batch := array.NewRecordBatch(schema, []arrow.Array{col}, 1)
+	col.Release()
+	defer batch.Release()
+	var buf bytes.Buffer
+	if err := vgirpc.WriteRequest(&buf, method, batch, ""); err != nil {
+		panic(err)
+	}
+	return buf.Bytes()
+}
+
+var c40InitBody = sync.OnceValue(func() []byte { return c40ParamsBody("p") })
+
+func c40InitRequest() *http.Request {
+	r := httptest.NewRequest("POST", "/p/init", bytes.NewReader(c40InitBody()))
+	r.Header.Set("Content-Type", "application/vnd.apache.arrow.stream")
+	return r
+}
+
+func c40ContRequest() *http.Request {
+	state, call := c40Mint()
+	tick := array.NewRecordBatchWithMetadata(arrow.NewSchema(nil, nil), nil, 0,
+		arrow.NewMetadata([]string{vgirpc.MetaStreamState, vgirpc.MetaCallState}, []string{string(state), string(call)}))
+	defer tick.Release()
+	var buf bytes.Buffer
+	w := ipc.NewWriter(&buf, ipc.WithSchema(arrow.NewSchema(nil, nil)))
+	if err := w.Write(tick); err != nil {
+		panic(err)
+	}
+	_ = w.Close()
+	r := httptest.NewRequest("POST", "/p/exchange", bytes.NewReader(buf.Bytes()))
+	r.Header.Set("Content-Type", "application/vnd.apache.arrow.stream")
+	return r
+}
 
 type c40Req struct {
 	id    int
@@ -125,6 +212,7 @@ func c40NewWorld(hook bool, plan []c40Plan) *c40World {
 		w.mu.Unlock()
 		return p.N, nil
 	})
+	c40Register(s)
 	s.SetDispatchHook(c40Dispatch{w})
 	if hook {
 		s.SetServeStartHook(func(kind vgirpc.TransportKind, _ map[string]bool) error {
@@ -160,7 +248,11 @@ func c40NewWorld(hook bool, plan []c40Plan) *c40World {
 			return errors.New("scripted hook failure")
 		})
 	}
-	h := vgirpc.NewHttpServer(s)
+	h, err := vgirpc.NewHttpServerWithKey(s, c40Key)
+	if err != nil {
+		panic(err)
+	}
+	h.SetProducerBatchLimit(1)
 	h.EnableSticky(0)
 	w.srv, w.h = s, h
 	return w
@@ -208,6 +300,10 @@ func c40HTTPRequest(route string) *http.Request {
 		r.Header.Set("Content-Type", "application/vnd.apache.arrow.stream")
 		r.Header.Set("Accept-Encoding", "zstd, gzip")
 		return r
+	case "init":
+		return c40InitRequest()
+	case "cont":
+		return c40ContRequest()
 	case "health":
 		return httptest.NewRequest("GET", "/health", nil)
 	case "landing":
@@ -406,7 +502,13 @@ func (w *c40World) status() string {
 		w.oracle("kind-mismatch", fmt.Sprintf("method handlers observed transport kinds %v", w.seenKinds))
 	}
 	if !hashSame {
-		w.oracle("hash-mismatch", "requests observed different protocol hashes (or one different from Server.ProtocolHash())")
+		w.mu.Lock()
+		var hs []string
+		for k := range w.hashes {
+			hs = append(hs, fmt.Sprintf("%q", k))
+		}
+		w.mu.Unlock()
+		w.oracle("hash-differs-between-requests", fmt.Sprintf("dispatched requests observed protocol hash(es) %v; Server.ProtocolHash() is %q", hs, w.srv.ProtocolHash()))
 	}
 	if !healthSame || !pagesSame {
 		w.oracle("cached-body-mismatch", "two requests to the same cached route got different bodies")
@@ -471,7 +573,7 @@ func c40ParsePlan(s string) ([]c40Plan, bool) {
 	return out, true
 }
 
-var c40Routes = map[string]bool{"unary": true, "health": true, "landing": true, "describe": true, "options": true, "notfound": true}
+var c40Routes = map[string]bool{"unary": true, "init": true, "cont": true, "health": true, "landing": true, "describe": true, "options": true, "notfound": true}
 
 func c40Exec(c *Case) {
 	var w *c40World
@@ -601,7 +703,7 @@ func c40Exec(c *Case) {
 func c40Storm(c *Case, seed, n, fails int) string {
 	plan := make([]c40Plan, fails)
 	w := c40NewWorld(true, plan)
-	routes := []string{"unary", "health", "landing", "describe", "options", "notfound", "unary", "unary"}
+	routes := []string{"unary", "health", "landing", "describe", "options", "notfound", "unary", "cont", "init", "cont"}
 	rng := NewRng(uint64(seed))
 	var wg sync.WaitGroup
 	startGate := make(chan struct{})
@@ -655,6 +757,9 @@ func c40Storm(c *Case, seed, n, fails int) string {
 	os := w.oracles
 	w.oracles = nil
 	nh := len(w.hashes)
+	if nh == 1 && !w.hashes[w.srv.ProtocolHash()] {
+		nh = 2
+	}
 	w.mu.Unlock()
 	for _, o := range os {
 		viol++
@@ -662,7 +767,7 @@ func c40Storm(c *Case, seed, n, fails int) string {
 	}
 	if nh > 1 {
 		viol++
-		c.Oracle("hash-mismatch", "storm: requests observed different protocol hashes")
+		c.Oracle("hash-differs-between-requests", "storm: requests observed different protocol hashes")
 	}
 	if dh := w.h.DrainHandle(); dh != nil {
 		dh.Shutdown()
@@ -674,7 +779,11 @@ func c40Storm(c *Case, seed, n, fails int) string {
 
 func c40Gen(g *Gen) {
 	r := g.Rng
-	routes := []string{"unary", "health", "landing", "describe", "options", "notfound"}
+	routes := []string{"unary", "init", "cont", "cont", "health", "landing", "describe", "options", "notfound"}
+	// requests that are in flight together are anonymous, so they must touch the same lazy cells
+	class := map[string][]string{"unary": {"unary"}, "init": {"init", "cont"}, "cont": {"init", "cont"}, "health": {"health"},
+		"landing": {"landing", "describe", "options", "notfound"}, "describe": {"landing", "describe", "options", "notfound"},
+		"options": {"landing", "describe", "options", "notfound"}, "notfound": {"landing", "describe", "options", "notfound"}}
 	n := g.N(220, 4000)
 	for i := 0; i < n; i++ {
 		hook := r.Chance(88)
@@ -737,7 +846,7 @@ func c40Gen(g *Gen) {
 			}
 			route := Pick(r, routes)
 			if blocked {
-				route = flight // everything queued behind a blocked hook shares one route (requests are anonymous)
+				route = Pick(r, class[flight]) // everything queued behind a blocked hook touches the same cells
 			}
 			lines = append(lines, fmt.Sprintf("req %d %s", next, route))
 			next++
@@ -764,7 +873,7 @@ func c40Gen(g *Gen) {
 		for k := 0; k < 8; k++ {
 			lines = append(lines, "go")
 		}
-		lines = append(lines, fmt.Sprintf("req %d unary", next), fmt.Sprintf("req %d health", next+1), fmt.Sprintf("req %d landing", next+2), "stat")
+		lines = append(lines, fmt.Sprintf("req %d cont", next), fmt.Sprintf("req %d unary", next+1), fmt.Sprintf("req %d health", next+2), fmt.Sprintf("req %d landing", next+3), "stat")
 		g.Case(lines...)
 	}
 	s := g.N(6, 120)
